@@ -3,6 +3,7 @@
 # stop the others; its own check will report it.
 cd "$(dirname "$0")"
 export CARGO_NET_OFFLINE=true
+export CARGO_TARGET_DIR="$(pwd)/harness/target"
 [ -f harness/Cargo.lock ] || cp /repo/Cargo.lock harness/Cargo.lock
 IDS=$(python3 -c "import json;print(' '.join(c['property_id'] for c in json.load(open('MANIFEST.json'))['checks']))")
 (cd lean && lake build QV.Wire)
